@@ -228,7 +228,7 @@ func (refs Targets) InnermostAtPos(file string, pos hcl.Pos) (Targets, bool) {
 
 		nestedTargets, ok := target.NestedTargets.InnermostAtPos(file, pos)
 		if ok {
-			innermostTargets = nestedTargets
+			innermostTargets = append(innermostTargets, nestedTargets...)
 			continue
 		}
 
